@@ -76,6 +76,7 @@ class Anchors:
 
 def new_engine(chk, fx, **opts):
     e = Engine(fx, opts)
+    e.used_contracts = chk.used_contracts        # shared: which Reader/Writer contract entries this check's proof applied
     return e
 
 
@@ -117,3 +118,73 @@ def slice_reader_arg(eng, st, name="input"):
     cell = ("obj", "reader")
     st.cells[cell] = VAdt(srty, Lin.const(0), {0: (sl,)})
     return VRef(cell, (), True)
+
+
+# ---------------------------------------------------------------- wire views (independent of how the code groups its reads)
+
+def wire_octets(eng, st, reads):
+    """the octets delivered by a run of consecutive fixed-width reads, one (Lin, (symbol, bit offset)) per octet.
+    A 2/4/8-octet big-endian read of value w contributes the base-256 digits of w, so a header read as
+    u8,u8,u16,u16 and the same header read as u16,u16,u16 give views that the linear solver proves equal."""
+    out = []
+    for e in reads:
+        n, val = e[2], e[3]
+        if not isinstance(val, VInt):
+            return None
+        sym = next(iter(val.lin.t)) if len(val.lin.t) == 1 and val.lin.c == 0 else None
+        if n == 1:
+            out.append((val.lin, (sym, 0)))
+            continue
+        digs = []
+        q = val.lin
+        for i in range(n - 1):
+            q, r = eng.divmod_const(st, q, 256)
+            digs.append(r)
+        digs.append(q)          # most significant octet: what is left (bounded by the type)
+        digs.reverse()
+        for i, d in enumerate(digs):
+            out.append((d, (sym, 8 * (n - 1 - i))))
+    return out
+
+
+def wire_int(eng, st, reads, off, width):
+    """big-endian integer at octets [off, off+width) of the run of reads; the read's own value when one read covers
+    exactly that field"""
+    pos = 0
+    for e in reads:
+        if pos == off and e[2] == width and isinstance(e[3], VInt):
+            return e[3].lin
+        pos += e[2]
+    octs = wire_octets(eng, st, reads)
+    if octs is None or len(octs) < off + width:
+        return None
+    v = Lin.const(0)
+    for d, _ in octs[off:off + width]:
+        v = v.scale(256) + d
+    return v
+
+
+class AvpHeaderView:
+    """the six AVP header octets as read from the wire at the start of a greedy-loop iteration: first octet o1
+    (M = bit 0, H = bit 1, length bits 9..8 in bits 7..6 - the crate's bit numbering), second octet o2 (length bits
+    7..0), vendor id, attribute type."""
+
+    def __init__(self, eng, st, top_reads):
+        self.ok = False
+        octs = wire_octets(eng, st, top_reads)
+        if octs is None or len(octs) < 6:
+            return
+        self.ok = True
+        self.o1, self.o1src = octs[0]
+        self.o2 = octs[1][0]
+        q, _r = eng.divmod_const(st, self.o1, 64)
+        self.total = q.scale(256) + self.o2          # the 10-bit Length field
+        self.vendor = wire_int(eng, st, top_reads, 2, 2)
+        self.attr = wire_int(eng, st, top_reads, 4, 2)
+
+    def bit(self, st, k):
+        """truth of bit k of the first header octet on this path (None when not decided)"""
+        sym, off = self.o1src
+        if sym is None:
+            return None
+        return st.bitfacts.get((sym, off + k))
